@@ -67,6 +67,28 @@ def run_case(case):
         shutil.rmtree(d, ignore_errors=True)
 
 
+def tree_digest(repo=None) -> str:
+    """Digest of the python sources the self-test cases are written against."""
+    import hashlib
+    h = hashlib.sha256()
+    root = os.path.join(repo or REPO, "src")
+    for dp, dn, fn in sorted(os.walk(root)):
+        dn.sort()
+        for f in sorted(fn):
+            if f.endswith(".py"):
+                p = os.path.join(dp, f)
+                h.update(os.path.relpath(p, root).encode())
+                h.update(open(p, "rb").read())
+    return h.hexdigest()
+
+
+def validated_digest() -> str:
+    try:
+        return open(os.path.join(HERE, "validated_digest.txt")).read().split()[0]
+    except (OSError, IndexError):
+        return ""
+
+
 def base_clean(pid) -> bool:
     out = subprocess.run([sys.executable, CHECK, pid, "--repo", REPO, "--json", "--no-selftest"],
                          capture_output=True, text=True, timeout=300)
@@ -82,7 +104,14 @@ def run_for(pid, jobs=16):
     with ThreadPoolExecutor(max_workers=jobs) as ex:
         results = list(ex.map(run_case, todo))
     failed = [r for r in results if r["status"] == "fail"]
-    return {"cases": len(todo), "ok": sum(r["status"] == "ok" for r in results),
+    # The cases are textual edits written against one known tree. On that tree a failing case means the
+    # checker is broken (fatal). On any other tree the edit may no longer mean what it meant, so failures are
+    # reported as warnings and decide nothing.
+    on_validated_tree = tree_digest() == validated_digest()
+    warnings = []
+    if not on_validated_tree:
+        warnings, failed = failed, []
+    return {"cases": len(todo), "on_validated_tree": on_validated_tree, "warnings": warnings, "ok": sum(r["status"] == "ok" for r in results),
             "skipped": [r for r in results if r["status"] == "skipped"],
             "failed": failed,
             "mutants_reported": sum(1 for c, r in zip(todo, results) if c.get("expect") != "silent" and r["status"] == "ok"),
@@ -95,10 +124,14 @@ if __name__ == "__main__":
     from sa.selftest import cases
     pids = sys.argv[1:] or sorted({c["prop"] for c in cases.CASES})
     bad = 0
+    if "--stamp" in pids:
+        open(os.path.join(HERE, "validated_digest.txt"), "w").write(tree_digest() + "\n")
+        print("stamped", tree_digest())
+        sys.exit(0)
     for pid in pids:
         r = run_for(pid)
         print(pid, "cases=%s ok=%s skipped=%s failed=%s" % (r.get("cases"), r.get("ok"), len(r.get("skipped") or []) if isinstance(r.get("skipped"), list) else r.get("skipped"), len(r["failed"])))
-        for f in r["failed"]:
+        for f in r["failed"] + r.get("warnings", []):
             print("   FAIL", f["id"], f["detail"][:400])
             bad += 1
         if isinstance(r.get("skipped"), list):
